@@ -27,6 +27,26 @@ package graphql
 //@   ensures typeis(value, "float32") && f32(value) >= f32(-2147483648) && f32(value) <= f32(2147483520) ==> result != nil
 //@   ensures typeis(value, "bool") ==> result != nil && (boolval(value) ==> intval(result) == 1) && (!boolval(value) ==> intval(result) == 0)
 
+// The other leaf coercers (C04: a String leaf is a string or null, a Boolean leaf is a bool or null; C05: conformant
+// values are delivered unchanged)
+//@ func coerceString
+//@   props C04 C05
+//@   nosafety
+//@   assigns nothing
+//@   nopanic
+//@   ensures result == nil || typeis(result, "string")
+//@   ensures typeis(value, "string") ==> result != nil
+//@   ensures typeis(value, "*string") && as(value, "*string") == nil ==> result == nil
+//@ func coerceBool
+//@   props C04 C05
+//@   nosafety
+//@   assigns nothing
+//@   nopanic
+//@   ensures result == nil || typeis(result, "bool")
+//@   ensures typeis(value, "bool") ==> result != nil && typeis(result, "bool") && boolval(result) == boolval(value)
+//@   ensures typeis(value, "int") ==> typeis(result, "bool") && (boolval(result) <==> intval(value) != 0)
+//@   ensures typeis(value, "*bool") && as(value, "*bool") == nil ==> result == nil
+
 // ---- response paths (C18, C20) ------------------------------------------------
 
 //@ func ResponsePath.WithKey
